@@ -23,6 +23,7 @@ import json
 import os
 import random
 import re
+import shutil
 
 import lib
 
@@ -550,7 +551,10 @@ def validate(ctx, trace, shards):
 def run(ctx):
     rng = random.Random(ctx.seed)
     load_fragment_findings(ctx)
-    binary = ctx.build("parse")
+    built = ctx.build("parse")
+    # private copy: other agents remove /verif/.build-* directories when they finish their own mutant runs
+    binary = ctx.path("parse-driver")
+    shutil.copy2(built, binary)
     if ctx.replay_in:
         return replay(ctx, binary)
     quick = ctx.quick()
